@@ -232,6 +232,7 @@ let () =
            let what = String.map (fun c -> if c = ' ' then '_' else c) (String.trim (String.sub line 1 (String.length line - 1))) in
            if starts_with what "neighbour" then report_spec ~prop:"C13" ~pred:"neighbours_untouched" ~detail:what
            else if starts_with what "forwarding" then report_spec ~prop:"C14" ~pred:"trait_forwarding_like_std" ~detail:what
+           else if starts_with what "refused_growth" then report_spec ~prop:"C14" ~pred:"utf8_after_refused_growth" ~detail:what
            else if starts_with what "into_bump_str" then report_spec ~prop:"C14" ~pred:"text_given_to_the_arena_stays_intact" ~detail:what
            else report_spec ~prop:"C14" ~pred:"decoder_like_std" ~detail:what
          | 'E' ->
